@@ -400,6 +400,16 @@ class Extractor:
         assert f['start'] + off == sig_start, (f['start'], off, sig_start)
         sig = S.text[sig_start:f['body_open']]
         body = S.text[f['body_open']:f['end']]
+        if opts.get('asyncseq'):
+            # rule AS1: an `async fn` is verified under its single-task sequential semantics: the `async` keyword is dropped and
+            # `EXPR.await` stands for the completion value of EXPR (the awaited calls are synchronous stubs of the unit's prelude).
+            # What other tasks do while this one is suspended at an await point is NOT covered (that is C04 / C17 territory).
+            msig0 = mask(sig)
+            am = re.search(r'\basync\s+(?=fn\b)', msig0)
+            if not am:
+                raise ExtractError(f'fn {name}: asyncseq requested but the function is not an async fn')
+            sig = sig[:am.start()] + ' ' * (am.end() - am.start()) + sig[am.end():]
+            rules.append(('AS1', 'async fn verified under single-task sequential semantics: `async` dropped', ''))
         # ---- signature: name the return value (E1) ----
         msig = mask(sig)
         depth = 0
@@ -636,6 +646,12 @@ class Extractor:
                     st = mt.start() + mb[mt.start():mt.end()].index(nm)
                     dels.append((st, st + len(nm), nm + '_'))
                     rules.append(('M1', f'std method .{nm}() called through the prelude wrapper .{nm}_() (assumed specification)', ''))
+            dels.sort(key=lambda d: (d[0], d[1]))
+        if opts.get('asyncseq'):
+            mb = mask(body)
+            for mt in re.finditer(r'\.\s*await\b', mb):
+                dels.append((mt.start(), mt.end(), ''))
+                rules.append(('AS1', '`.await` = completion value of the awaited (stubbed, synchronous) call', ''))
             dels.sort(key=lambda d: (d[0], d[1]))
         # ---- B1: non-short-circuit `A & B` on two side-effect-free operands (optionally negated / parenthesised variable or field path) -> `&&`
         #      (same value, and neither operand has an effect whose evaluation could be skipped; Verus rejects `&` on bool)
